@@ -12,14 +12,18 @@
 (*            and nothing nobody marked                                    *)
 (*   landed   when a mark operation ends, each target page was set by it   *)
 (*   final    NoLostMark on the final bitmap                               *)
+(*   owed     every completed mark counts: its page is set until a step    *)
+(*            that came after the mark began clears it                     *)
 (***************************************************************************)
 EXTENDS BitmapRules, Sequences, TLC, Json, IOUtils
 
 Rec == ndJsonDeserialize(IOEnv.TRACE)
 
-VARIABLES l, size, mw, cur, took, landed, seen, g
+VARIABLES l, size, mw, cur, took, landed, seen, g, since, owed
 \* g = ghost record [ever, marked, harvested, cleared]
-tvars == <<l, size, mw, cur, took, landed, seen, g>>
+\* since[t] = pages cleared by any step since thread t's running operation began;
+\* owed = pages with a completed mark that nothing has cleared since that mark began (BitmapConc!EveryMarkCounts)
+tvars == <<l, size, mw, cur, took, landed, seen, g, since, owed>>
 
 ToSet(seq) == {seq[i] : i \in DOMAIN seq}
 Judge(ok, tag, exp) == IF ok THEN TRUE ELSE PrintT(<<"MISMATCH", l, tag, ToJson(exp)>>)
@@ -41,7 +45,7 @@ Word(j) == IF j \in DOMAIN mw THEN mw[j] ELSE {}
 P64(j, bits) == {j * 64 + b : b \in bits}
 BitsNow(m) == UNION {P64(j, m[j]) : j \in DOMAIN m}
 
-TraceInit == /\ l = 1 /\ size = 0 /\ mw = <<>> /\ cur = <<>> /\ took = <<>> /\ landed = <<>> /\ seen = <<>>
+TraceInit == /\ l = 1 /\ size = 0 /\ mw = <<>> /\ cur = <<>> /\ took = <<>> /\ landed = <<>> /\ seen = <<>> /\ since = <<>> /\ owed = {}
              /\ g = [ever |-> {}, marked |-> {}, harvested |-> {}, cleared |-> {}]
 
 EverOf(threads) == UNION {UNION {LET o == threads[t][i] IN
@@ -59,13 +63,15 @@ TraceNext ==
               /\ took' = [t \in 1 .. Len(e.a.threads) |-> {}]
               /\ landed' = [t \in 1 .. Len(e.a.threads) |-> {}]
               /\ seen' = [t \in 1 .. Len(e.a.threads) |-> {}]
+              /\ since' = [t \in 1 .. Len(e.a.threads) |-> {}] /\ owed' = {}
               /\ g' = [ever |-> EverOf(e.a.threads) \cap (0 .. e.a.size - 1), marked |-> {}, harvested |-> {}, cleared |-> {}]
          [] e.op = "final" ->
               /\ Incons(ToSet(e.a.bits) = BitsNow(mw), "final_bits", [bits |-> BitsNow(mw)])
               /\ Judge(g.marked \subseteq (g.harvested \cup BitsNow(mw) \cup g.cleared), "lost_mark",
                        [marked |-> g.marked, harvested |-> g.harvested, bits |-> BitsNow(mw), cleared |-> g.cleared])
               /\ Judge(g.harvested \subseteq g.ever, "phantom", [harvested |-> g.harvested, ever |-> g.ever])
-              /\ UNCHANGED <<size, mw, cur, took, landed, seen, g>>
+              /\ Judge(owed \subseteq BitsNow(mw), "mark_not_counted", [owed |-> owed, bits |-> BitsNow(mw)])
+              /\ UNCHANGED <<size, mw, cur, took, landed, seen, g, since, owed>>
          [] e.op = "step" ->
               LET a == e.a
                   t == a.t
@@ -80,6 +86,10 @@ TraceNext ==
                   seen1 == (IF fresh THEN {} ELSE seen[t]) \cup (IF a.kind \notin {"noop", "store"} THEN P64(j, v) ELSE {})
                   land1 == (IF fresh THEN {} ELSE landed[t]) \cup (IF a.kind = "noop" THEN {} ELSE P64(j, nv))
                   ended == "end" \in DOMAIN a
+                  mw1 == IF a.kind = "noop" \/ j \notin DOMAIN mw THEN mw ELSE [mw EXCEPT ![j] = nv]
+                  since0 == IF fresh THEN [since EXCEPT ![t] = {}] ELSE since
+                  since1 == [u \in DOMAIN since0 |-> since0[u] \cup clearedP]
+                  owed1 == (owed \ clearedP) \cup (IF ended /\ op.k = "mark" THEN TargetN(op, size) \ since1[t] ELSE {})
               IN
               /\ Incons(a.kind \in {"noop", "store"} \/ (j \in DOMAIN mw /\ ToSet(a.old) = v), "old_value", [word |-> j, model |-> v])
               /\ Judge(clearedP \subseteq MayClearN(op, size) /\ setP \subseteq MaySetN(op, size), "stray",
@@ -89,7 +99,9 @@ TraceNext ==
                        "clone_result", [seen |-> seen1])
               /\ Judge((ended /\ op.k = "mark") => TargetN(op, size) \subseteq land1, "mark_landed", [target |-> TargetN(op, size), landed |-> land1])
               /\ Judge(ended => a.end.k # "panic", "panic", [op |-> op])
-              /\ mw' = IF a.kind = "noop" \/ j \notin DOMAIN mw THEN mw ELSE [mw EXCEPT ![j] = nv]
+              /\ Judge(owed1 \subseteq BitsNow(mw1), "mark_not_counted", [owed |-> owed1, bits |-> BitsNow(mw1)])
+              /\ mw' = mw1
+              /\ since' = since1 /\ owed' = owed1
               /\ cur' = [cur EXCEPT ![t] = IF ended THEN NoOp ELSE op]
               /\ took' = [took EXCEPT ![t] = took1]
               /\ seen' = [seen EXCEPT ![t] = seen1]
